@@ -786,6 +786,110 @@ MCEvents == {%s}
 """
 
 
+ROUTE_INVS = ["ImplRouteReported", "ImplRouteFactor", "ImplRouteNac", "ImplRoutePhysFrequencies", "ImplRoutePhysLOTO",
+              "TInvRoute", "ConformsRouteFactor", "ConformsRouteNac"]
+CFG_ROUTE_MODEL = """INIT RInit
+NEXT RNext
+CONSTANTS
+ Calcs <- MCCalcs
+CHECK_DEADLOCK FALSE
+INVARIANT InvRouteResolves
+INVARIANT InvRouteFactor
+INVARIANT InvRouteNac
+"""
+MC_ROUTE_MODEL = "---- MODULE MC_UnitsRoute ----\nEXTENDS UnitsRoute\nMCCalcs == AllCalcs\n====\n"
+CFG_ROUTE_TRACE = """INIT TRInit
+NEXT TRNext
+CONSTANTS
+ Calcs <- MCCalcs
+ Events <- MCEvents
+CHECK_DEADLOCK FALSE
+""" + "\n".join("INVARIANT " + i for i in ROUTE_INVS) + "\n"
+MC_ROUTE_TRACE = """---- MODULE MC_UnitsRouteTrace ----
+EXTENDS UnitsRouteTrace
+MCCalcs == AllCalcs
+MCEvents == {%s}
+====
+"""
+
+
+def run_unit_routes(ctx, rows, ref, bases, fscale, dist, sq):
+    """UnitsRoute.tla: the calculator reaches load() as argument, through the saved yaml,
+    through phonopy_disp.yaml, or as argument against a file that records another one."""
+    res = ctx.tlc("MC_UnitsRoute", cfg_text=CFG_ROUTE_MODEL, extra_files={"MC_UnitsRoute.tla": MC_ROUTE_MODEL},
+                  coverage=True, workers=2, timeout=600, what="C17: the route model itself is inconsistent")
+    ctx.extra["route_model"] = dict(states=res.distinct, coverage={k: v[1] for k, v in res.coverage.items()})
+    base_born = None
+    events, worst, detail = [], 0.0, {}
+    for ci, calc in enumerate(cio.CALCS):
+        lf = cu.evaluate(rows[calc]["dist"])
+        ff = cu.evaluate([a - b for a, b in zip(rows[calc]["fcsi"], rows["vasp"]["fcsi"])])
+        other = "qe" if calc == "vasp" else "vasp"
+        combos = [(r, "none") for r in cu.ROUTES]
+        if ctx.quick:      # NAC modes rotate over routes and seeds; every (calculator, NAC mode) is met by seeds 0,1,2
+            combos += [(cu.ROUTES[(ci + ctx.seed + k) % 4], "params") for k in (0, 2)]
+            if ci % 3 == ctx.seed % 3:
+                combos.append((cu.ROUTES[1 + (ci + ctx.seed) % 3], "born"))
+        else:
+            combos += [(r, m) for r in cu.ROUTES for m in ("params", "born")]
+        if calc == "cp2k":       # NAC factor documented as not implemented: load() with NAC parameters has no factor
+            combos = [c_ for c_ in combos if c_[1] == "none"]
+        for route, nm in combos:
+            e = dict(n=len(events), dc=calc, rt=route, nm=nm, oc=(other if route == "conflict" else calc),
+                     reported="error", factor=list(cu.UNPROJECTABLE), nacSet=False, nac=[0] * 7,
+                     phys=dict(sameFrequencies=False, sameLOTO=False))
+            try:
+                o = cu.route_observables(ref, calc, lf, ff, route, nm, other)
+                e["reported"] = o["reported"]
+                e["factor"] = cu.project(o["factor"])
+                if o["nac"] is not None:
+                    e["nacSet"] = True
+                    e["nac"] = cu.project(o["nac"])
+                if nm == "born":
+                    if base_born is None:
+                        base_born = cu.route_observables(ref, "vasp", 1.0, 1.0, "arg", "born", "qe")
+                    b, tol = base_born, 1e-3          # BORN file -> Gonze-Lee (sharp reciprocal cutoff, see above)
+                else:
+                    b, tol = bases[nm], 1e-9
+                dq = float(np.abs(sq(o["fq"]) - sq(b["fq"])).max() / fscale ** 2)
+                dg = float(np.abs(sq(o["fg"]) - sq(b["fg"])).max() / fscale ** 2)
+                e["phys"] = dict(sameFrequencies=(dq < tol and dg < tol) if nm == "none" else True,
+                                 sameLOTO=(dq < tol and dg < tol))
+                detail["%s/%s/%s" % (calc, route, nm)] = [dq, dg]
+                if max(dq, dg) < tol:
+                    worst = max(worst, max(dq, dg) / tol)
+            except Exception as ex:  # noqa: BLE001
+                detail["%s/%s/%s" % (calc, route, nm)] = "%s: %s" % (type(ex).__name__, ex)
+            events.append(e)
+            ctx.count(("route", calc, route, nm))
+    ctx.extra["unit_routes"] = dict(events=len(events), margin=worst)
+    res = ctx.tlc("MC_UnitsRouteTrace", cfg_text=CFG_ROUTE_TRACE,
+                  extra_files={"MC_UnitsRouteTrace.tla": MC_ROUTE_TRACE % ",\n".join(to_tla(e) for e in events)},
+                  requirement=False, extra_args=("-continue",), workers=2, timeout=600)
+    if res.distinct < 3 * len(events):
+        raise tlcmod.MachineryError("UnitsRouteTrace consumed %d states for %d events" % (res.distinct, len(events)))
+    ctx.traces += len(events)
+    viol = {}
+    for name, tr in res.violations:
+        e = tr[-1][1].get("ev", {}) if tr else {}
+        viol.setdefault((name, e.get("dc", "?"), e.get("rt", "?"), e.get("nm", "?")), e)
+    req = {k[1:] for k in viol if k[0].startswith("Impl")}
+    for (name, calc, route, nm), e in sorted(viol.items()):
+        if name.startswith("Conforms") and (calc, route, nm) in req:
+            continue
+        ctx.violation("units:%s:route-%s:%s" % (calc, route, name),
+                      "C17 units: %s fails for %s reaching load() by route %s (NAC mode %s)" % (name, calc, route, nm),
+                      dict(invariant=name, calc=calc, route=route, nac_mode=nm, logged=e, required=rows.get(calc),
+                           distance=detail.get("%s/%s/%s" % (calc, route, nm)),
+                           bases="doubled exponents over EV AMU BOHR HARTREE TWO PI TEN"))
+    # binding self-check: an event whose factor is VASP's although the data are in qe's units must be rejected
+    bad = dict(events[0], n=0, dc="qe", rt="yaml", oc="qe", reported="qe", factor=cu.project(__import__("phonopy").units.VaspToTHz))
+    r2 = ctx.tlc("MC_UnitsRouteTrace", cfg_text=CFG_ROUTE_TRACE,
+                 extra_files={"MC_UnitsRouteTrace.tla": MC_ROUTE_TRACE % to_tla(bad)}, requirement=False, workers=1, timeout=300)
+    if r2.violated not in ("ImplRouteFactor", "ConformsRouteFactor"):
+        raise tlcmod.MachineryError("UnitsRouteTrace accepted a corrupted event (%r)" % r2.violated)
+
+
 def run_units(ctx):
     res = ctx.tlc("MC_Units", cfg_text=CFG_UNITS, extra_files={"MC_Units.tla": MC_UNITS}, dump=True, keep=True,
                   coverage=True, workers=2, timeout=600, what="C17: the unit model itself is inconsistent")
@@ -884,6 +988,7 @@ def run_units(ctx):
         elif calc not in req_calcs:
             ctx.violation("units:%s:%s" % (calc, name), "C17 units: logged table of %s differs from the derived one (%s)"
                           % (calc, name), detail)
+    run_unit_routes(ctx, rows, ref, dict(none=base0, params=baseW), fscale, dist, sq)
     # binding self-check: a table with one exponent changed must be rejected
     bad = dict(by["vasp"])
     bad["factor"] = [x + (1 if i == 2 else 0) for i, x in enumerate(bad["factor"])]
